@@ -61,7 +61,12 @@ def main(argv=None):
             n_known += 1
             if k["key"] not in reported:
                 reported.add(k["key"])
-                print(f"KNOWN-FINDING: property={prop} {k['what']}")
+                # the first witness of every known finding is kept as a replayable artefact as well
+                try:
+                    kp = core.write_replay(v)
+                except Exception:  # noqa: BLE001
+                    kp = None
+                print(f"KNOWN-FINDING: property={prop} {k['what']}" + (f" [witness: ./check {prop} --replay {kp}]" if kp else ""))
         else:
             unknown.append(v)
     level = getattr(mod, "LEVEL", "model_checking")
